@@ -6,6 +6,9 @@
 package verifrt
 
 import (
+	"archive/zip"
+	"bytes"
+	"encoding/csv"
 	"encoding/json"
 	"fmt"
 	"math"
@@ -180,6 +183,45 @@ func Or(xs ...bool) bool {
 	return false
 }
 func Implies(a, b bool) bool { return !a || b }
+
+// File is one member of a GTFS static archive given as a table.
+type File struct {
+	Name   string
+	Header []string
+	Rows   [][]string
+	BOM    bool
+}
+
+// Archive builds a real zip archive whose members are real CSV files.
+func Archive(files []File) []byte {
+	var buf bytes.Buffer
+	zw := zip.NewWriter(&buf)
+	for _, f := range files {
+		w, err := zw.Create(f.Name)
+		if err != nil {
+			panic(err)
+		}
+		if f.BOM {
+			w.Write([]byte{0xEF, 0xBB, 0xBF})
+		}
+		cw := csv.NewWriter(w)
+		if f.Header != nil {
+			if err := cw.Write(f.Header); err != nil {
+				panic(err)
+			}
+		}
+		for _, r := range f.Rows {
+			if err := cw.Write(r); err != nil {
+				panic(err)
+			}
+		}
+		cw.Flush()
+	}
+	if err := zw.Close(); err != nil {
+		panic(err)
+	}
+	return buf.Bytes()
+}
 
 func Marshal(m *gtfsrt.FeedMessage) []byte {
 	b, err := proto.MarshalOptions{AllowPartial: true}.Marshal(m)
